@@ -39,3 +39,30 @@ fn c07_k_point_axis_line() {
     assert!(d == want as f64);
     assert!(Euclidean.distance(&l, &p) == d && Euclidean.distance(p.0, &l) == d && Euclidean.distance(&l, p.0) == d);
 }
+
+// ======================================================================================
+// C07 (geo-types private_utils, reached from geo where the feature gate of that module is on): the point-on-line-string test that gates the "distance is zero" early-out of
+// `point_line_string_euclidean_distance` -- literal axis-parallel and slanted segments, lattice query points.
+// BOUNDED (menu of literal line strings); f64::hypot modelled.
+// ======================================================================================
+use geo_types::private_utils::{line_string_contains_point, point_line_string_euclidean_distance};
+
+
+/// an L-shaped line string (horizontal then vertical segment): a lattice point is "contained" exactly when it lies
+/// on one of the two segments; the distance is zero exactly then
+#[cfg(kani)]
+#[kani::proof]
+#[kani::unwind(6)]
+#[kani::stub(f64::hypot, hypot_model)]
+fn c07_k_line_string_contains_point_axis() {
+    let c = |x: f64, y: f64| Coord { x, y };
+    let ls = LineString(vec![c(1.0, 2.0), c(5.0, 2.0), c(5.0, 6.0)]);
+    let (px, py): (i8, i8) = (kani::any(), kani::any());
+    kani::assume(-1 <= px && px <= 8 && -1 <= py && py <= 8);
+    let p = Point(c(px as f64, py as f64));
+    let on = (py == 2 && 1 <= px && px <= 5) || (px == 5 && 2 <= py && py <= 6);
+    assert!(line_string_contains_point(&ls, p) == on);
+    let d = point_line_string_euclidean_distance(p, &ls);
+    assert!((d == 0.0) == on);
+    kani::cover!(px == 1 && py == 7, "same x as the start vertex of the horizontal segment, off the line string");
+}
